@@ -167,10 +167,10 @@ impl MainState {
                 && !pwd_ok(*self, old(conn_state).user_state.name->0, old(conn_state).user_state.password) ==>
                 final(sig).quit == 1 && final(conn_state).stream.log() == old(conn_state).stream.log().push(
                     fed(self.config.name@, Reply::ErrPasswdMismatch464 { client: str_of(client_name_spec(old(conn_state).user_state)) })),
-            sym(*final(state)), // @prop C04
+            sym(*final(state)), // @prop C04,C05
             chans_wf(*final(state)), // @prop C04,C08
             no_empty_chan(*final(state)), // @prop C16
-            wallops_wf(*final(state)), // @prop C11,C06
+            wallops_wf(*final(state)), // @prop C11,C06,C05
             counters_wf(*final(state)), // @prop C19
             senders_distinct(*final(state)), // @prop C02,C01
 //@open
@@ -197,10 +197,10 @@ impl MainState {
                 &&& final(state).nick_histories@.contains_key(nk)
                 &&& final(state).nick_histories@[nk]@.last() == old(state).users@[nk].history_entry
             }),
-            sym(*final(state)), // @prop C04
+            sym(*final(state)), // @prop C04,C05
             chans_wf(*final(state)), // @prop C04,C08
             no_empty_chan(*final(state)), // @prop C16
-            wallops_wf(*final(state)), // @prop C11,C06
+            wallops_wf(*final(state)), // @prop C11,C06,C05
             counters_wf(*final(state)), // @prop C19
             senders_distinct(*final(state)), // @prop C02,C01
 //@open
@@ -223,10 +223,10 @@ impl MainState {
             !old(conn_state).user_state.authenticated ==> conn_pre(*old(conn_state), *old(state)),
             old(conn_state).user_state.authenticated ==> conn_ok(*old(conn_state), *old(state)),
         ensures
-            sym(*final(state)), // @prop C04
+            sym(*final(state)), // @prop C04,C05
             chans_wf(*final(state)), // @prop C04,C08
             no_empty_chan(*final(state)), // @prop C16
-            wallops_wf(*final(state)), // @prop C11,C06
+            wallops_wf(*final(state)), // @prop C11,C06,C05
             counters_wf(*final(state)), // @prop C19
             senders_distinct(*final(state)), // @prop C02,C01
             old(conn_state).user_state.authenticated ==> *final(state) == *old(state) && conn_same_but_stream(*final(conn_state), *old(conn_state)), // @prop C02
@@ -247,10 +247,10 @@ impl MainState {
             !old(conn_state).user_state.authenticated ==> conn_pre(*old(conn_state), *old(state)),
             old(conn_state).user_state.authenticated ==> conn_ok(*old(conn_state), *old(state)),
         ensures
-            sym(*final(state)), // @prop C04
+            sym(*final(state)), // @prop C04,C05
             chans_wf(*final(state)), // @prop C04,C08
             no_empty_chan(*final(state)), // @prop C16
-            wallops_wf(*final(state)), // @prop C11,C06
+            wallops_wf(*final(state)), // @prop C11,C06,C05
             counters_wf(*final(state)), // @prop C19
             senders_distinct(*final(state)), // @prop C02,C01
             old(conn_state).user_state.authenticated ==> *final(state) == *old(state) && conn_same_but_stream(*final(conn_state), *old(conn_state)), // @prop C02
